@@ -2,7 +2,9 @@
    ExtrOcamlBasic only: bool, option, unit, list, prod, sumbool map to OCaml natives;
    nat, N, Z, positive stay extracted inductives. No Extract Constant. *)
 From Coq Require Extraction ExtrOcamlBasic.
-From SV Require Import Base.Base IR.State IR.NS IR.Ops.
+From SV Require Import Base.Base IR.State IR.NS IR.Ops Extract.Digest.
 Extraction Language OCaml.
 Extraction "model.ml" init step pin_wire read_scalar fast_lookup scan_lookup str_NAME str_IDENT str_NS
-  check_edif_identifier lower.
+  check_edif_identifier lower
+  (* cross-check of extraction + driver glue against vm_compute (harness/coq_eval.py): *)
+  ev0 ev_more state_digest ir_case.
